@@ -10,7 +10,14 @@ def P(n, **kw):
     d.update(kw)
     return d
 
+MAT_ASSUME = [
+    "model (coq/Model/Matrix.v) is hand-written; tied to /repo by the exact-arithmetic correspondence of this run",
+    "scalars are elements of a field (exact rationals in the correspondence); floating-point rounding is outside the property",
+]
 PROPS = {
+    "C01": P(1, assumptions=MAT_ASSUME, trusted=["rustc monomorphisation of the generic code at Xq"]),
+    "C02": P(2, runmod="RunC01", assumptions=MAT_ASSUME + ["`==` on the scalar type decides equality (EqbSpec; true of Qc by proof, of f32/f64 except NaN)"],
+             trusted=["rustc monomorphisation of the generic code at Xq"]),
     "C03": P(3,
         assumptions=[
             "model (coq/Model/Vector.v) is hand-written; tied to /repo by the exact-arithmetic correspondence of this run",
